@@ -13,6 +13,10 @@ fn opts() -> EncodeOptions { let mut o = EncodeOptions::default(); o.dithering =
 
 /// values: one integer per channel (U8 / U16 value or f32 bit pattern); returns the encoded bytes
 pub fn encode_values(format: Format, ch: usize, p: usize, values: &[u32], w: u32, h: u32, pitch_extra: usize) -> Option<Vec<u8>> {
+    encode_values_d(format, ch, p, values, w, h, pitch_extra, Dithering::None)
+}
+#[allow(clippy::too_many_arguments)]
+pub fn encode_values_d(format: Format, ch: usize, p: usize, values: &[u32], w: u32, h: u32, pitch_extra: usize, dithering: Dithering) -> Option<Vec<u8>> {
     let color = ColorFormat::new(CHANNELS[ch], PRECS[p]);
     let bpp = color.bytes_per_pixel() as usize;
     let row = w as usize * bpp;
@@ -24,7 +28,8 @@ pub fn encode_values(format: Format, ch: usize, p: usize, values: &[u32], w: u32
     for y in 0..h as usize { buf[y * pitch..y * pitch + row].copy_from_slice(&flat[y * row..(y + 1) * row]); }
     let view = ImageView::new_with(&buf, pitch, Size::new(w, h), color)?;
     let mut out = Vec::new();
-    match catch(|| encode(&mut out, view, format, None, &opts())) { Some(Ok(())) => Some(out), _ => None }
+    let mut o = opts(); o.dithering = dithering;
+    match catch(|| encode(&mut out, view, format, None, &o)) { Some(Ok(())) => Some(out), _ => None }
 }
 
 fn emit(out: &mut Out, fi: usize, ch: usize, p: usize, values: &[u32]) {
@@ -81,15 +86,18 @@ fn oracles(out: &mut Out, thorough: bool, rng: &mut Rng) {
         for p in 0..3usize {
             if !exact_for(name, p) { continue; }
             let cnt = CHANNELS[native].count() as usize;
-            let rounds = if p == 0 { 8 } else if thorough { 200 } else { 40 };
+            let rounds = if p == 0 { 24 } else if thorough { 200 } else { 40 };
             for round in 0..rounds {
-                let values: Vec<u32> = (0..npx * cnt).map(|i| match p { 0 => ((round * npx * cnt + i) % 256) as u32, 1 => if round % 2 == 0 { ((round * 4099 + i * 257) % 65536) as u32 } else { rng.below(65536) as u32 }, _ => (rng.below(1 << 24) as f32 / (1u32 << 24) as f32).to_bits() }).collect();
-                let Some(bytes) = encode_values(format, native, p, &values, w, h, 0) else { println!("IMPL-VIOLATION round-trip encode failed: {name}"); continue; };
+                // the exactness clause holds whatever dithering is requested (an exact encoder has nothing to diffuse)
+                let dithering = [Dithering::None, Dithering::Color, Dithering::Alpha, Dithering::ColorAndAlpha][round % 4];
+                out.count(&format!("roundtrip_dither_{:?}", dithering));
+                let values: Vec<u32> = (0..npx * cnt).map(|i| match p { 0 => if round < 8 { ((round * npx * cnt + i) % 256) as u32 } else if rng.below(4) == 0 { [255u32, 254, 0, 1][rng.below(4) as usize] } else { rng.below(256) as u32 }, 1 => if round % 2 == 0 { ((round * 4099 + i * 257) % 65536) as u32 } else { rng.below(65536) as u32 }, _ => (rng.below(1 << 24) as f32 / (1u32 << 24) as f32).to_bits() }).collect();
+                let Some(bytes) = encode_values_d(format, native, p, &values, w, h, 0, dithering) else { println!("IMPL-VIOLATION round-trip encode failed: {name}"); continue; };
                 let Some(back) = decode_back(format, native, p, &bytes, w, h) else { println!("IMPL-VIOLATION round-trip decode failed: {name}"); continue; };
                 // channels the format does not store come back as their defaults: compare stored channels only
                 let stored: Vec<bool> = match (name, cnt) { ("B8G8R8X8_UNORM", _) => vec![true, true, true], (n, 3) if n.starts_with("R8G8_") || n.starts_with("R16G16_") || n.starts_with("R32G32_") => vec![true, true, false], _ => vec![true; cnt] };
                 for (i, (&a, &b)) in values.iter().zip(back.iter()).enumerate() {
-                    if stored[i % cnt] && a != b { println!("IMPL-VIOLATION lossless round trip changed a value: {name} precision {p} channel {} in {a} out {b}", i % cnt); break; }
+                    if stored[i % cnt] && a != b { println!("IMPL-VIOLATION lossless round trip changed a value: {name} precision {p} dithering {:?} channel {} in {a} out {b}", dithering, i % cnt); break; }
                     if !stored[i % cnt] { let d = match p { 0 => 0, 1 => 0, _ => 0 }; if b != d { println!("IMPL-VIOLATION unstored channel did not decode to its default: {name} precision {p} got {b}"); break; } }
                 }
                 out.count("oracle_roundtrip");
